@@ -1,6 +1,8 @@
 //! C16 store layer: drive rsdd::util::lru::Lru directly with explicit (colliding) hashes.
 //! case:  <cap> (i <k> <v> <h> | g <k> <h>)*
 //! out:   (N | <v>)* util=<occupied/len reduced>
+//! soak:  K <cap> <nkeys> <nops> <seed>   one long history (regenerated from the seed by `run_soak`)
+//!        on a table that grows past 2^16 slots; ORACLE-ONLY (out: the fixed token "soak")
 use rsdd_verif_harness::*;
 use rsdd::util::lru::Lru;
 use std::collections::HashMap;
@@ -12,6 +14,15 @@ fn main() {
 }
 
 pub fn gen(rng: &mut Rng, idx: usize, n: usize, thorough: bool) -> String {
+    // soak: a few very long histories per shard on tables that start at 2^14..2^16 slots and grow
+    // past 2^16 / 2^17 (the sizes the shipped ITE cache actually has); the case text is only the
+    // parameters + a seed
+    if idx % (if thorough { 2000 } else { 5000 }) == (if thorough { 1999 } else { 4999 }) {
+        let cap = *rng.pick(&[14usize, 15, 16, 16, 16]);
+        let nkeys = rng.range(100_000, 200_000);
+        let nops = rng.range(900_000, 1_100_000);
+        return format!("K {cap} {nkeys} {nops} {}", rng.below(1 << 32));
+    }
     // SDD apply / ite caches: a program whose every operation is executed twice in a row
     if idx % 6 == 1 {
         use rsdd_verif_harness::bddprog::*;
@@ -113,7 +124,127 @@ fn run_sdd_level(case: &str, st: &mut Stats) -> Outcome {
     Outcome { result: "sdd".to_string(), fails, nontrivial: prog.ops.len() > 6 }
 }
 
+/// Soak: ONE long model-based history on one `Lru<u64, u64>`, described by (cap, nkeys, nops, seed).
+/// Keys are 0..nkeys, created one after the other; the hash of a key is fixed when the key is created:
+/// random 64 bits, or (one key in five) the low L bits of the hash of an already existing key
+/// (L in {cap, 15, 16, 17, 18, 20}) under random high bits -- a *collider* that shares the home of its
+/// partner in every table of at most 2^L slots.  Operations (value = running insert counter, so every
+/// inserted value is unique and identifies the insert that wrote it):
+///   * insert of a fresh key (until nkeys exist; spread over the first ~60% of the history),
+///   * re-insert of an existing key under a NEW value,
+///   * the directed triple  insert(a, new); insert(b, new); get(a); get(b)  on a collider pair (a, b),
+///   * get of an existing key (half of them among the 1000 most recently created keys).
+/// Oracle (independent of the Coq model, which is list based and cannot follow 2^17 slots): the latest
+/// value per key; a get answers None or exactly that value -- never a superseded value of the key and
+/// never a value inserted under another key.
+fn run_soak(case: &str, st: &mut Stats) -> Outcome {
+    let t = toks(case);
+    let p = |i: usize| -> u64 { t[i].parse().unwrap() };
+    let (cap, nkeys, nops, seed) = (p(0) as usize, p(1) as usize, p(2) as usize, p(3));
+    let mut r = Rng::new(seed ^ 0x50AC);
+    let mut lru: Lru<u64, u64> = Lru::new(cap);
+    let mut hashes: Vec<u64> = Vec::with_capacity(nkeys);
+    let mut latest: Vec<u64> = Vec::with_capacity(nkeys); // key -> latest value (every created key has been inserted)
+    let mut val_key: Vec<u32> = vec![0]; // value -> key it was inserted under (values start at 1)
+    let mut pairs: Vec<(u32, u32)> = vec![];
+    let mut low16 = vec![false; 1 << 16];
+    let mut distinct_low16 = 0usize;
+    let mut fails: Vec<String> = vec![];
+    let (mut hits, mut misses, mut inserts, mut stale, mut foreign, mut triples) = (0u64, 0u64, 0u64, 0u64, 0u64, 0u64);
+    let pf = ((100 * nkeys) / (nops * 6 / 10).max(1)).clamp(5, 60) as u64;
+    macro_rules! ins {
+        ($k:expr) => {{
+            let k: usize = $k;
+            let v = val_key.len() as u64;
+            val_key.push(k as u32);
+            lru.insert(k as u64, v, hashes[k]);
+            latest[k] = v;
+            inserts += 1;
+        }};
+    }
+    macro_rules! get {
+        ($k:expr, $step:expr) => {{
+            let k: usize = $k;
+            match lru.get(k as u64, hashes[k]) {
+                None => misses += 1,
+                Some(v) => {
+                    hits += 1;
+                    if v != latest[k] {
+                        let owner = val_key.get(v as usize).copied();
+                        let msg = if owner == Some(k as u32) {
+                            stale += 1;
+                            format!("soak step {}: get({k}) returned {v}, a value that was superseded: the value most recently inserted under that key is {} ({} keys exist, {inserts} inserts so far)", $step, latest[k], hashes.len())
+                        } else {
+                            foreign += 1;
+                            format!("soak step {}: get({k}) returned {v}, which was never inserted under that key (it belongs to key {owner:?})", $step)
+                        };
+                        if fails.len() < 3 {
+                            fails.push(msg);
+                        }
+                    }
+                }
+            }
+        }};
+    }
+    for step in 0..nops {
+        let x = r.below(100);
+        let created = hashes.len();
+        if created == 0 || (x < pf && created < nkeys) {
+            // fresh key, one in five a collider of an existing key
+            let h = if created > 0 && r.chance(1, 5) {
+                let partner = if r.coin() { r.below(created as u64) as usize } else { created - 1 - r.below(created.min(1000) as u64) as usize };
+                let l = *r.pick(&[cap, 15, 16, 17, 18, 20]);
+                pairs.push((partner as u32, created as u32));
+                (hashes[partner] & ((1u64 << l) - 1)) | (r.next() << l)
+            } else {
+                r.next()
+            };
+            hashes.push(h);
+            latest.push(0);
+            if !low16[(h & 0xFFFF) as usize] {
+                low16[(h & 0xFFFF) as usize] = true;
+                distinct_low16 += 1;
+            }
+            ins!(created);
+        } else if x < pf + 15 {
+            ins!(r.below(created as u64) as usize);
+        } else if x < pf + 20 && !pairs.is_empty() {
+            let (a, b) = pairs[r.below(pairs.len() as u64) as usize];
+            let (a, b) = if r.coin() { (a, b) } else { (b, a) };
+            ins!(a as usize);
+            ins!(b as usize);
+            get!(a as usize, step);
+            get!(b as usize, step);
+            triples += 1;
+        } else {
+            let k = if r.coin() { r.below(created as u64) as usize } else { created - 1 - r.below(created.min(1000) as u64) as usize };
+            get!(k, step);
+        }
+    }
+    if stale + foreign > fails.len() as u64 {
+        fails.push(format!("soak: {stale} gets returned a superseded value and {foreign} a value of another key, out of {hits} hits"));
+    }
+    // more than 0.7 * 2^16 distinct homes modulo 2^16: a table that started with 2^16 slots necessarily
+    // grew to 2^17 (one started smaller: unless it lost that many entries by overwrites before reaching 2^16)
+    let crossed = cap <= 16 && distinct_low16 > 45_876;
+    st.bump("soak_cases");
+    st.bump(&format!("soak_cap={cap}"));
+    st.add("soak_gets_hit", hits);
+    st.add("soak_gets_miss", misses);
+    st.add("soak_inserts", inserts);
+    st.add("soak_collider_pairs", pairs.len() as u64);
+    st.add("soak_collider_triples", triples);
+    st.add("soak_keys", hashes.len() as u64);
+    if crossed {
+        st.bump("soak_more_than_0.7*2^16_distinct_homes_mod_2^16");
+    }
+    Outcome { result: "soak".to_string(), fails, nontrivial: hits > 0 && crossed }
+}
+
 pub fn run(case: &str, st: &mut Stats) -> Outcome {
+    if let Some(rest) = case.strip_prefix("K ") {
+        return run_soak(rest, st);
+    }
     if let Some(rest) = case.strip_prefix("S ") {
         return run_sdd_level(rest, st);
     }
